@@ -50,9 +50,9 @@ var v16Constants = []formatConst{
 	{"SectionInvertedTextIndex", "0"},
 	{"SectionFaissVectorIndex", "1"},
 	{"SectionSynonymIndex", "2"},
-	{"FSTValEncodingMask", "13835058055282163712"},  // 0xc000000000000000
+	{"FSTValEncodingMask", "13835058055282163712"}, // 0xc000000000000000
 	{"FSTValEncodingGeneral", "0"},
-	{"FSTValEncoding1Hit", "9223372036854775808"},   // 0x8000000000000000
+	{"FSTValEncoding1Hit", "9223372036854775808"}, // 0x8000000000000000
 	{"mask31Bits", "2147483647"},
 	{"DocNum1HitFinished", "18446744073709551615"},
 	{"fieldNotUninverted", "18446744073709551615"},
